@@ -3,11 +3,14 @@
    [tnext_key] = _get_next_key, [tkey_after] = _get_key_after, mirrored case by case;
    [least_above] is the specification).  Byte-string key order = nibble tuple order
    (Nibbles_proofs.bytes_ltb_nibbles).  Only the property theorems.
-   The fog loop of nodes() with its frontier cache is modelled at database level
-   (Fog/Walk.v: iter_nodes) and tied to the code and to [tnodes] by the correspondence check. *)
+   The fog loop of nodes() with its frontier cache, items() and next() are modelled at
+   database level (Fog/Walk.v) and proved to refine the tree level in Fog/Walk_proofs.v
+   (the C10_D_* theorems at the end). *)
 From Coq Require Import List NArith Bool Sorted.
 From PyTrie.Base Require Import Bytes Result Nibbles Nibbles_proofs.
-From PyTrie.Hexary Require Import Raw Tree TreeTraverse Tree_aux Tree_map Tree_unique Tree_traverse_proofs.
+From PyTrie.Base Require Import AMap Rlp.
+From PyTrie.Hexary Require Import Raw Tree TreeTraverse TreeRun Tree_aux Tree_map Tree_unique Tree_traverse_proofs D D_read Refine_read.
+From PyTrie.Fog Require Import Fog Walk Walk_proofs.
 Import ListNotations.
 
 (* items(): exactly the stored pairs ... *)
@@ -69,3 +72,66 @@ Theorem C10_nodes_preorder : forall t, canonical_top t = true ->
   StronglySorted (fun a b => nibbles_ltb (fst a) (fst b) = true) (tnodes t []).
 Proof. exact tnodes_sorted. Qed.
 Print Assumptions C10_nodes_preorder.
+
+(* ---- database level (Fog/Walk.v = trie/iter.py over trie/fog.py and HexaryTrie.traverse /
+   traverse_from with the cached-parent shortcut).  On any store that represents a canonical
+   tree (which every store produced by set/delete does: C02_D), under a hash without a
+   collision on the tree's nodes: *)
+
+(* nodes(): the fog loop with its frontier cache returns exactly the tree's nodes, each
+   annotated, in the pre-order of [tnodes] *)
+Theorem C10_D_nodes : forall H, (forall x, length (H x) = 32%nat) -> BNH = H (rlp_encode (RStr [])) ->
+  forall m r t, represents H m r t -> canonical_top t = true -> decodable H t -> no_blank_collision H BNH t ->
+  (length (tnodes t []) < nodes_fuel)%nat ->
+  iter_all_nodes (plain m r) = Ok (map (fun e => (fst e, ann_hnode H (snd e))) (tnodes t [])).
+Proof. exact iter_nodes_refines. Qed.
+Print Assumptions C10_D_nodes.
+
+(* items(): exactly the stored (byte key, value) pairs ... *)
+Theorem C10_D_items : forall H, (forall x, length (H x) = 32%nat) -> BNH = H (rlp_encode (RStr [])) ->
+  forall m r t, represents H m r t -> canonical_top t = true -> decodable H t -> no_blank_collision H BNH t ->
+  even_keys t -> (length (tnodes t []) < nodes_fuel)%nat ->
+  iter_items (plain m r) = Ok (bitems t).
+Proof. exact iter_items_refines. Qed.
+Print Assumptions C10_D_items.
+
+Theorem C10_D_items_spec : forall t k v, wf t = true -> even_keys t ->
+  (In (k, v) (bitems t) <-> tget t (bytes_to_nibbles k) = v /\ v <> []).
+Proof. exact bitems_spec. Qed.
+Print Assumptions C10_D_items_spec.
+
+(* ... in strictly ascending byte-string order *)
+Theorem C10_D_items_sorted : forall t, canonical_top t = true -> even_keys t ->
+  StronglySorted (fun a b => bytes_ltb (fst a) (fst b) = true) (bitems t).
+Proof. exact bitems_sorted. Qed.
+Print Assumptions C10_D_items_sorted.
+
+(* every trie built through the byte-key API has keys of even nibble length *)
+Theorem C10_D_even_keys : forall ops : list (bytes * option bytes), even_keys (trun (map to_top ops)).
+Proof. exact even_keys_trun. Qed.
+Print Assumptions C10_D_even_keys.
+
+(* next(k) / next(): the least stored byte key strictly above k / the least stored key *)
+Theorem C10_D_next_after : forall H, (forall x, length (H x) = 32%nat) -> BNH = H (rlp_encode (RStr [])) ->
+  forall m r t, represents H m r t -> canonical_top t = true -> decodable H t -> no_blank_collision H BNH t ->
+  forall k, even_keys t -> (depth t < iter_fuel)%nat ->
+  exists res, iter_next (plain m r) (Some k) = Ok res /\
+    match res with
+    | Some k1 => tget t (bytes_to_nibbles k1) <> [] /\ bytes_ltb k k1 = true /\
+                 forall k', tget t (bytes_to_nibbles k') <> [] -> bytes_ltb k k' = true -> k' = k1 \/ bytes_ltb k1 k' = true
+    | None => forall k', tget t (bytes_to_nibbles k') <> [] -> bytes_ltb k k' = false
+    end.
+Proof. exact iter_next_after_least. Qed.
+Print Assumptions C10_D_next_after.
+
+Theorem C10_D_next_first : forall H, (forall x, length (H x) = 32%nat) -> BNH = H (rlp_encode (RStr [])) ->
+  forall m r t, represents H m r t -> canonical_top t = true -> decodable H t -> no_blank_collision H BNH t ->
+  even_keys t -> (depth t < iter_fuel)%nat ->
+  exists res, iter_next (plain m r) None = Ok res /\
+    match res with
+    | Some k1 => tget t (bytes_to_nibbles k1) <> [] /\
+                 forall k', tget t (bytes_to_nibbles k') <> [] -> k' = k1 \/ bytes_ltb k1 k' = true
+    | None => forall k', tget t (bytes_to_nibbles k') = []
+    end.
+Proof. exact iter_next_first_least. Qed.
+Print Assumptions C10_D_next_first.
